@@ -9,6 +9,8 @@ use crate::rng::Rng;
 pub enum Ty {
     Int,
     Str,
+    Bool,
+    Float,
     Arr(Box<Ty>),
     Opt(Box<Ty>),
     Tup(Box<Ty>, Box<Ty>),
@@ -22,6 +24,9 @@ pub enum Ty {
 pub enum Val {
     Int(i64),
     Str(String),
+    Bool(bool),
+    /// stored as bits so that the model can be compared exactly
+    Float(u64),
     Arr(Vec<Val>),
     Opt(Option<Box<Val>>),
     Tup(Box<Val>, Box<Val>),
@@ -91,6 +96,8 @@ impl Ty {
         match self {
             Ty::Int => "int".into(),
             Ty::Str => "string".into(),
+            Ty::Bool => "bool".into(),
+            Ty::Float => "float".into(),
             Ty::Arr(t) => format!("array<{}>", t.name()),
             Ty::Opt(t) => format!("option<{}>", t.name()),
             Ty::Tup(a, b) => format!("({}, {})", a.name(), b.name()),
@@ -103,6 +110,8 @@ impl Ty {
         match self {
             Ty::Int => "int".into(),
             Ty::Str => "str".into(),
+            Ty::Bool => "bool".into(),
+            Ty::Float => "float".into(),
             Ty::Arr(t) => format!("[{}]", t.describe()),
             Ty::Opt(t) => format!("opt<{}>", t.describe()),
             Ty::Tup(a, b) => format!("({},{})", a.describe(), b.describe()),
@@ -114,7 +123,7 @@ impl Ty {
     /// does a value of this type contain anything that can be mutated in place?
     pub fn has_mutable(&self) -> bool {
         match self {
-            Ty::Int | Ty::Str => false,
+            Ty::Int | Ty::Str | Ty::Bool | Ty::Float => false,
             Ty::Arr(_) | Ty::Rec(..) => true,
             Ty::Opt(t) | Ty::Sum(_, t) => t.has_mutable(),
             Ty::Tup(a, b) => a.has_mutable() || b.has_mutable(),
@@ -127,6 +136,8 @@ impl Val {
         match self {
             Val::Int(n) => n.to_string(),
             Val::Str(s) => s.clone(),
+            Val::Bool(b) => b.to_string(),
+            Val::Float(bits) => f64::from_bits(*bits).to_string(),
             Val::Arr(xs) => format!("[{}]", xs.iter().map(|x| format!("{},", x.show())).collect::<String>()),
             Val::Opt(Some(x)) => format!("some({})", x.show()),
             Val::Opt(None) => "none".into(),
@@ -156,11 +167,28 @@ impl Gen {
     /// a random type of at most `depth` constructor levels; declares the structs / enums it uses
     pub fn ty(&mut self, rng: &mut Rng, depth: u32) -> Ty {
         if depth == 0 {
-            return if rng.chance(1, 2) { Ty::Int } else { Ty::Str };
+            return match rng.below(6) {
+                0 | 1 => Ty::Int,
+                2 | 3 => Ty::Str,
+                4 => Ty::Bool,
+                _ => Ty::Float,
+            };
         }
         match rng.below(8) {
-            0 => Ty::Int,
-            1 => Ty::Str,
+            0 => {
+                if rng.chance(1, 3) {
+                    Ty::Float
+                } else {
+                    Ty::Int
+                }
+            }
+            1 => {
+                if rng.chance(1, 4) {
+                    Ty::Bool
+                } else {
+                    Ty::Str
+                }
+            }
             2 | 3 => Ty::Arr(Box::new(self.ty(rng, depth - 1))),
             4 => Ty::Opt(Box::new(self.ty(rng, depth - 1))),
             5 => Ty::Tup(Box::new(self.ty(rng, depth - 1)), Box::new(self.ty(rng, depth - 1))),
@@ -207,12 +235,26 @@ impl Gen {
     pub fn value(&mut self, rng: &mut Rng, ty: &Ty) -> (Val, String) {
         match ty {
             Ty::Int => {
-                let n = rng.below(90) as i64;
-                (Val::Int(n), n.to_string())
+                let n = match rng.below(8) {
+                    0 => -(rng.below(90) as i64) - 1,
+                    1 => (1i64 << 40) + rng.below(90) as i64,
+                    2 => -(1i64 << 53) - 1,
+                    _ => rng.below(90) as i64,
+                };
+                (Val::Int(n), if n < 0 { format!("(0 - {})", -n) } else { n.to_string() })
             }
             Ty::Str => {
                 let n = rng.below(90);
                 (Val::Str(format!("s{n}")), format!("(\"s\" .. {n})"))
+            }
+            Ty::Bool => {
+                let b = rng.chance(1, 2);
+                (Val::Bool(b), b.to_string())
+            }
+            Ty::Float => {
+                let f: f64 = *rng.pick(&[0.0, 1.5, -2.25, 100.125, 3.0, -0.5, 1048576.5]);
+                let src = if f < 0.0 { format!("(0.0 - {})", -f) } else if f.fract() == 0.0 { format!("{f}.0") } else { f.to_string() };
+                (Val::Float(f.to_bits()), src)
             }
             Ty::Arr(t) => {
                 // at least one element, so that the element type is always inferable and there
@@ -257,7 +299,7 @@ impl Gen {
         self.next_fn += 1;
         let name = format!("show_{k}");
         let body = match ty {
-            Ty::Int => "    \"\" .. x\n".to_string(),
+            Ty::Int | Ty::Bool | Ty::Float => "    \"\" .. x\n".to_string(),
             Ty::Str => "    x\n".to_string(),
             Ty::Arr(t) => {
                 let inner = self.show_fn(t);
@@ -301,7 +343,7 @@ impl Gen {
 
     fn plan(&mut self, rng: &mut Rng, ty: &Ty, val: &Val, tag: &str, path: &mut Vec<Step>) -> Option<Action> {
         match (ty, val) {
-            (Ty::Int, _) | (Ty::Str, _) => None,
+            (Ty::Int, _) | (Ty::Str, _) | (Ty::Bool, _) | (Ty::Float, _) => None,
             (Ty::Arr(t), Val::Arr(items)) => {
                 if t.has_mutable() && !items.is_empty() && rng.chance(1, 2) {
                     let i = rng.below(items.len() as u64) as usize;
